@@ -1616,7 +1616,7 @@ func init() {
 			if shard == 3%nsh {
 				emit(strings.Replace(probeAfterDeath(), "c09 script", "c04 script", 1))
 			}
-			for i := shard; i < 24; i += nsh {
+			for i := shard; i < 64; i += nsh {
 				emit(mergeRaceScenario())
 			}
 		})
@@ -1695,7 +1695,7 @@ func init() {
 				emit(metaColocatedScenario())
 			}
 			if !raceChild {
-				for i := shard; i < 24; i += nsh {
+				for i := shard; i < 64; i += nsh {
 					emit(strings.Replace(mergeRaceScenario(), "c04 script", "c09 script", 1))
 				}
 			}
